@@ -60,7 +60,13 @@ def _eval_clause(ex, text, cfr):
     ast.fix_missing_locations(node2)
     ex.frames.append(cfr)
     try:
-        return ex.eval(node2, cfr)
+        try:
+            return ex.eval(node2, cfr)
+        except PyRaise as pr:
+            if issubclass(pr.exc.cls, NameError):
+                # e.g. a final_<local> witness of a local that was renamed: the contract is out of date (undecided)
+                raise ContractOutOfDate(f"contract clause `{text}` refers to a name that is not bound") from None
+            raise
     finally:
         ex.frames.pop()
 
